@@ -16,7 +16,30 @@ LEVEL = "model_checking"
 NAME = fsim.PREFIX + "ckpt.json"
 SIBLINGS = (NAME, NAME + ".old", NAME + ".new")
 MAX_CONSECUTIVE = 6
-DRIVERS = ("save_parameters", "mcmc", "optimizer", "hmc_signature")
+# run_*: the checkpoint is written by the real loop (Optimizer.run / MCMC.run for one iteration whose
+# update leaves the parameters where they are), not by a call of save_full_state from the harness
+DRIVERS = ("save_parameters", "mcmc", "optimizer", "hmc_signature", "run_optimizer", "run_mcmc")
+
+
+def _run_spec(kind):
+    joint = {"id": "joint", "type": "JointDistributionModel", "distributions": [
+        {"id": "dx", "type": "Distribution", "distribution": "torch.distributions.Normal",
+         "x": {"id": "x", "type": "Parameter", "tensor": [0.5, 1.5]}, "parameters": {"loc": 0.3, "scale": 1.2}},
+        {"id": "dy", "type": "Distribution", "distribution": "torch.distributions.Normal",
+         "x": {"id": "y", "type": "Parameter", "tensor": [0.7]}, "parameters": {"loc": 0.0, "scale": 2.0}}]}
+    if kind == "run_mcmc":
+        algo = {"id": "algo", "type": "MCMC", "joint": "joint", "iterations": 1, "every": 0,
+                "checkpoint": NAME, "checkpoint_frequency": 1,
+                "operators": [{"id": "op.x", "type": "SlidingWindowOperator", "parameters": ["x"], "width": 0.0,
+                               "weight": 1.0, "disable_adaptation": True},
+                              {"id": "op.y", "type": "SlidingWindowOperator", "parameters": ["y"], "width": 0.0,
+                               "weight": 1.0, "disable_adaptation": True}]}
+    else:
+        algo = {"id": "algo", "type": "Optimizer", "algorithm": "torch.optim.SGD", "options": {"lr": 0.0},
+                "maximize": True, "loss": "joint", "parameters": ["x", "y"], "iterations": 1,
+                "checkpoint": NAME, "checkpoint_frequency": 1,
+                "checkpoint_all": kind == "run_optimizer_all"}
+    return [joint, algo]
 
 
 # -- drivers: the real call paths ------------------------------------------------
@@ -41,8 +64,17 @@ class Driver:
             dic = tt.load(toy.optimizer_toy(NAME, checkpoint_all=(kind == "optimizer_all")))
             self.algo = dic["opt"]
             self.params = [dic["x"], dic["y"]]
+        elif kind in ("run_optimizer", "run_optimizer_all", "run_mcmc"):
+            dic = tt.load(_run_spec(kind))
+            self.algo = dic["algo"]
+            self.params = [dic["x"], dic["y"]]
         else:
             raise ValueError(kind)
+
+    def all_name(self, v):
+        """file written for version v when every epoch gets its own file"""
+        k = v - 1 if self.kind.startswith("run_") else v
+        return NAME.replace(".json", f"-{k}.json")
 
     def set_version(self, v):
         torch = self.torch
@@ -64,6 +96,22 @@ class Driver:
             self.algo.save_full_state()
         elif self.kind == "optimizer":
             self.algo.save_full_state(self.algo.checkpoint)
+        elif self.kind.startswith("run_"):
+            import contextlib
+            import io
+
+            # one iteration of the real loop; it ends with iteration counter v and writes the checkpoint
+            self.algo._epoch = v - 1
+            self.algo.iterations = v - 1
+            for p_ in self.params:
+                p_.requires_grad = False
+            with contextlib.redirect_stdout(io.StringIO()):
+                try:
+                    self.algo.run()
+                except ZeroDivisionError:
+                    # the end-of-run summary of MCMC.run divides by the number of moves of an operator
+                    # that was never picked - after the last checkpoint, outside this property
+                    pass
         elif self.kind == "optimizer_all":
             # exactly what Optimizer._run does when checkpoint_all is set
             name = self.algo.checkpoint.replace(".json", f"-{v}.json")
@@ -250,36 +298,56 @@ def explore(kind, tier):
 
 
 def explore_all(tier):
+    n, viols = 0, []
+    for kind in ("optimizer_all", "run_optimizer_all"):
+        n_, v_ = _explore_all(kind)
+        n += n_
+        viols += v_
+    return n, viols
+
+
+def _explore_all(kind):
     """checkpoint_all: every epoch writes its own file; the earlier files must survive."""
-    driver = Driver("optimizer_all")
+    driver = Driver(kind)
     viols, n = [], 0
-    files = {}
+    # the directory already holds a checkpoint under the plain name (an earlier run without checkpoint_all)
+    files = dict(initial_files(Driver("run_optimizer" if kind.startswith("run_") else "optimizer")))
     for v in (1, 2, 3):
         _, log, _ = do_save(driver, files, v)
         for crash in crash_points(log):
             after, _, outcome = do_save(driver, files, v, crash)
             n += 1
             for p, c in files.items():
+                if p == NAME:
+                    # the plain name may be left alone or refreshed, but never truncated or lost
+                    if classify(after.get(p, ""))[0] != "ok":
+                        viols.append({
+                            "case": {"driver": kind, "upto": v, "crash": list(crash)},
+                            "detail": f"checkpoint_all ({kind}): writing epoch {v} left {p} as "
+                                      f"{classify(after.get(p, ''))} ({len(after.get(p, ''))} bytes)",
+                            "sig": {"driver": kind, "check": "name_truncated"},
+                        })
+                    continue
                 if after.get(p) != c:
                     viols.append({
-                        "case": {"driver": "optimizer_all", "upto": v, "crash": list(crash)},
-                        "detail": f"checkpoint_all: writing epoch {v} damaged {p}",
-                        "sig": {"driver": "optimizer_all", "check": "earlier_file_damaged"},
+                        "case": {"driver": kind, "upto": v, "crash": list(crash)},
+                        "detail": f"checkpoint_all ({kind}): writing epoch {v} damaged {p}",
+                        "sig": {"driver": kind, "check": "earlier_file_damaged"},
                     })
         files, _, outcome = do_save(driver, files, v)
-        want = NAME.replace(".json", f"-{v}.json")
+        want = driver.all_name(v)
         if classify(files.get(want, "")) != ("ok", v):
             viols.append({
-                "case": {"driver": "optimizer_all", "upto": v, "crash": None},
-                "detail": f"checkpoint_all: {want} is {classify(files.get(want, ''))}",
-                "sig": {"driver": "optimizer_all", "check": "completed_save_not_under_name"},
+                "case": {"driver": kind, "upto": v, "crash": None},
+                "detail": f"checkpoint_all ({kind}): {want} is {classify(files.get(want, ''))}",
+                "sig": {"driver": kind, "check": "completed_save_not_under_name"},
             })
     return n, viols
 
 
 def replay(case):
     kind = case["driver"]
-    if kind == "optimizer_all":
+    if kind in ("optimizer_all", "run_optimizer_all"):
         _, v = explore_all("quick")
         return [x for x in v if x["case"] == case]
     driver = Driver(kind)
